@@ -12,6 +12,8 @@ FCOLS = [['k', 'int64'], ['g', 'int64'], ['m', 'float64'], ['s', 'utf8']]
 DCOLS = [['g', 'int64'], ['name', 'utf8']]
 BIG = [[1, 1, F(0.5), 'a'], [2, 1, None, 'b'], [3, 2, F(2.0), 'a'], [4, None, F(1.5), None], [5, None, None, 'c'], [6, 2, F(0.5), 'b'], [7, 3, F(4.0), 'a'], [8, 1, F(0.5), None]]
 DIM = [[1, 'one'], [2, 'two'], [None, 'nil'], [4, 'four']]
+ECOLS = [['g', 'int64'], ['w', 'int64']]
+EXTRA = [[1, 10], [2, 20], [2, 21], [None, 99]]
 
 
 def statements():
@@ -65,6 +67,21 @@ def statements():
     add('SELECT k, ROW_NUMBER() OVER (PARTITION BY g ORDER BY k) AS r FROM f', 'gather-window')
     add('SELECT k, SUM(m) OVER (ORDER BY k) AS r FROM f', 'gather-window-sum', approx=True)
     add('SELECT a.k, b.k FROM f a JOIN f b ON a.g = b.g AND a.k < b.k', 'gather-selfjoin')
+    # the fact table on the NULL-supplying / build side of outer, semi and anti joins (alone and inside a nested inner join):
+    # sharding it there would emit one NULL-extended row per shard
+    add('SELECT d.name, f.k FROM d LEFT JOIN f ON d.g = f.g', 'outer-fact-nullside')
+    add('SELECT d.name, COUNT(f.k) AS n, COUNT(*) AS c FROM d LEFT JOIN f ON d.g = f.g GROUP BY d.name', 'outer-fact-nullside-agg')
+    add('SELECT d.name, f.k FROM f RIGHT JOIN d ON d.g = f.g', 'right-fact-nullside')
+    add('SELECT d.name, f.k FROM d FULL JOIN f ON d.g = f.g', 'full-join')
+    add('SELECT d.name, f.k, e.w FROM d LEFT JOIN (f JOIN e ON f.g = e.g) ON d.g = f.g', 'outer-nested-inner')
+    add('SELECT d.name, COUNT(*) AS c FROM d LEFT JOIN (f JOIN e ON f.g = e.g) ON d.g = f.g GROUP BY d.name', 'outer-nested-inner-agg')
+    add('SELECT d.name, f.k FROM f JOIN e ON f.g = e.g RIGHT JOIN d ON d.g = f.g', 'right-nested-inner')
+    add('SELECT d.name, COUNT(*) AS c FROM f JOIN e ON f.g = e.g RIGHT JOIN d ON d.g = f.g GROUP BY d.name', 'right-nested-inner-agg')
+    add('SELECT name FROM d WHERE NOT EXISTS (SELECT 1 FROM f WHERE f.g = d.g)', 'anti-fact-inner')
+    add('SELECT name FROM d WHERE EXISTS (SELECT 1 FROM f JOIN e ON f.g = e.g WHERE f.g = d.g)', 'semi-nested-inner')
+    add('SELECT name FROM d WHERE g NOT IN (SELECT g FROM f WHERE g IS NOT NULL)', 'notin-fact')
+    add('SELECT f.k, e.w FROM f LEFT JOIN e ON f.g = e.g', 'outer-fact-preserved')
+    add('SELECT e.w, COUNT(*) AS c FROM f LEFT JOIN e ON f.g = e.g GROUP BY e.w', 'outer-fact-preserved-agg')
     return S
 
 
@@ -149,8 +166,9 @@ def build_units(rep, stmts_all):
             nb = max(1, min(nfiles, len(rows)))
             t = table('f', FCOLS, rows, storage='parquet', nbatches=nb, **kw)
             dtab = table('d', DCOLS, DIM, storage='parquet', rg=2)
+            etab = table('e', ECOLS, EXTRA, storage='parquet', rg=10)
             for chunk in sqldiff_chunks(stmts_all, 40):
-                units.append({'db': {'tables': [t, dtab]}, 'stmts': chunk, 'layout': lname})
+                units.append({'db': {'tables': [t, dtab, etab]}, 'stmts': chunk, 'layout': lname})
     return units
 
 
